@@ -577,6 +577,7 @@ def run(ctx):
         ctx.distinct(s.line())
     ctx.sample(free[0].line()[:400])
     run_stream(ctx, "free", free, h, None, what)
+    descriptor_ownership(ctx)
     # ---- ThreadSanitizer: thorough always; quick when the generator / the generated-data theorems broke
     gen_broken = [o for o in ctx.obligations if o["kind"] == "gen" and not o["ok"]]
     thm_broken = [f for f in failed if any(x in f for x in ("shared_vars_covered", "request_path", "shared_calls", "steps_are"))]
@@ -610,6 +611,45 @@ def run(ctx):
             if not o["ok"] and o["kind"] == "theorem" and o["name"].endswith("shared_vars_covered"):
                 o["ok"] = True
                 o["name"] += " [fails because of recorded known finding %s]" % F11
+
+
+def descriptor_ownership(ctx):
+    """Isolation of connections at the descriptor level: every path through the real _job_exec (reception failing at each
+    stage, processing errors, undeliverable replies, success) closes the connection's descriptor exactly once.  A second
+    close () is invisible sequentially; with concurrent clients the number belongs to another client's connection by then."""
+    h = cc.build_toy(ctx)
+    if not h:
+        return
+    r = ctx.rng
+    good_e = cc.enc_req(data=b"own", cipher=4, mac=5, zip_=0)
+    reqs = [("ok-enc", good_e, ""), ("empty", b"", " cut=0"), ("hdr-cut", good_e[:7], " cut=7"), ("body-cut", good_e[:20], " cut=20"),
+            ("magic", cc.hdr(2, 0, 4, cc.MAGIC + 1) + b"abcd", ""), ("version", cc.hdr(2, 0, 4, cc.MAGIC, 9) + b"abcd", ""),
+            ("over-limit", cc.hdr(2, 0, 2 ** 24) + b"x" * 64, " cut=75"), ("unpack", cc.hdr(2, 0, 3) + b"abc", ""),
+            ("type-other", cc.hdr(9, 0, 0), ""), ("type-rsp", cc.hdr(3, 0, 6) + bytes([0, 0, 0, 0, 0, 0]), ""),
+            ("hdr-in-hdr", cc.hdr(1, 0, 11) + cc.hdr(2, 0, 0), ""), ("bad-mac-type", cc.enc_req(mac=0, data=b"x"), ""),
+            ("dec-garbage", cc.dec_req(b"MUNGE:AAAA:\0"), ""), ("sendfail", good_e, " sendfail=1"), ("dec-empty", cc.dec_req(b""), "")]
+    ops, kinds = [], []
+    for rep in range(2 if ctx.tier == "quick" else 10):
+        for kind, b, extra in reqs:
+            ops.append("cred req %s now=1000000 peer=%d:%d rnd=%s mem=-%s" % (cc.hx(b), r.randrange(1000), r.randrange(1000), "ab" * 24, extra)); kinds.append(kind)
+    rc, out, err = cbuild.run_lines([h], ops)
+    ctx.count(len(ops)); ctx.dist("descriptor_ownership", len(ops))
+    for o in ops:
+        ctx.distinct(o)
+    bad = None
+    for i, l in enumerate(out[:len(ops)]):
+        if "connection-descriptor-closed-" in l:
+            bad = (i, "request class `%s`: the request path closed the connection's descriptor %s times; it owns it exactly once - under concurrency the second close hits "
+                      "another client's connection" % (kinds[i], l.split("-")[-2]))
+            break
+    crashed = rc != 0 or len(out) != len(ops)
+    ctx.obligation("oracle", "descriptor ownership: %d requests over %d reception / processing / delivery outcomes, each closes its descriptor exactly once" % (len(ops), len(reqs)),
+                   bad is None and not crashed, (bad[1] if bad else "") + (err[-1200:] if crashed else ""))
+    if bad or crashed:
+        i = bad[0] if bad else len(out)
+        ctx.violation("isolation of connections: " + (bad[1] if bad else "crash / sanitizer report"),
+                      {"stream": "descriptor-ownership", "harness": "h_cred_toy", "ops": [ops[i]] if i < len(ops) else [], "impl_output": out[i] if i < len(out) else err[-2000:]},
+                      found_input=True)
 
 
 def replay(ctx):
